@@ -378,7 +378,7 @@ pub fn def() -> PropDef {
             vec![
                 part(
                     "length_probe",
-                    tier.pick(40_000, 1_000_000),
+                    tier.pick(40_000, 8_000_000),
                     (0u8..7, 0u8..6, prop_oneof![8u32..3000, 3000u32..70_000], 0u8..LEN_CLASSES as u8).prop_map(|(probe, container, limit, len_class)| {
                         // array probes use element counts; keep them small enough to materialise
                         let limit = if probe >= 3 { 8 + limit % 2992 } else { limit };
@@ -388,7 +388,7 @@ pub fn def() -> PropDef {
                 ),
                 part(
                     "chunk_size",
-                    tier.pick(15_000, 300_000),
+                    tier.pick(15_000, 2_400_000),
                     (prop_oneof![Just(0u32), Just(8196u32), Just(65535u32), Just(327675u32), 12u32..100_000], -3i8..4, proptest::bool::weighted(0.15), any::<bool>())
                         .prop_map(|(max_message_size, delta, huge, body_present)| ChunkCase { max_message_size, delta, huge, body_present }),
                     chunk_check,
